@@ -300,7 +300,8 @@ def coverage(agg, plan: dict) -> dict:
         "distinct_nontrivial": len(agg.nontrivial_keys),
         "distinct_histories": len(agg.keys),
         "pool_definitions_total": agg.extra.get("pool_defs", 0),
-        "rule": "one case = one generated pool (1-3 modules) + one seeded history run in a fresh fork, with one sibling fork per distinct (definition, op) as reference; distinct = sha256 of (module sources, history); non-trivial = >= 3 definitions in the pool and >= 3 successful ops compared",
+        "rule": "one case = one generated pool (1-3 modules) + one seeded history (10-320 ops quick) run in a fresh fork; fresh-session references (sibling forks) for the max_refs most exposed (definition, op) pairs, first occurrence as reference for the rest; every op of the history is one comparison (see simulated_time.steps and the probes ops_vs_fresh_reference / ops_vs_first_occurrence); distinct = sha256 of (module sources, history); non-trivial = >= 3 definitions in the pool and >= 3 successful ops compared",
+        "ops_compared": agg.steps,
         "components_real": ["engine.py CompilationEngine / DefinitionStore", "decorators", "checker", "compiler", "tracing"],
         "components_stub": ["'emulate' replaced by compile", "compat shim (3 patch points)",
                             "worklist order pinned through the guarded hook"],
